@@ -103,6 +103,27 @@ theorem route_ok_of_closed {T : Tables} {mode : Mode} {top : Bool} {F : Flight}
   rw [Sig.ofCode_code] at h3
   exact h3
 
+/-- acceptable at the method boundary when only the tags in `tags` may excuse a non-conforming signal -/
+def okSigTags (T : Tables) (top : Bool) (tags : List Tag) (s : Sig) : Bool :=
+  conforming top (outcome T top s) || tags.contains s.tag
+
+def RootsOkTags (T : Tables) (mode : Mode) (top : Bool) (F : Flight) (tags : List Tag) : Bool :=
+  Method.all.all (fun m => (roots m).all (fun r =>
+    (F.get (r, top)).all (fun k => okSigTags T top tags (stepRegion T mode top top r (Sig.ofCode k)))))
+
+/-- finite check ⇒ all paths, with an explicit list of the tags that may excuse -/
+theorem route_ok_tags_of_closed {T : Tables} {mode : Mode} {top : Bool} {F : Flight} {tags : List Tag}
+    (hc : Closed T mode top F = true) (hr : RootsOkTags T mode top F tags = true)
+    (m : Method) (root : Region) (hroot : root ∈ roots m) (path : List Region) (hch : chain root path = true)
+    (s : Sig) (hs : s ∈ born T mode top (effLeaf T top path) (leaf root path)) :
+    okSigTags T top tags (routeSig T mode top root path s) = true := by
+  have hm := emerge_mem hc path root top s hch hs
+  have h1 := List.all_eq_true.mp hr m (Method.mem_all m)
+  have h2 := List.all_eq_true.mp h1 root hroot
+  have h3 := List.all_eq_true.mp h2 _ hm
+  rw [Sig.ofCode_code] at h3
+  exact h3
+
 /-- the pipeline: if every event is a designed failure on a call path (not through a tagged origin), the run ends acceptably -/
 theorem runEvents_ok {T : Tables} {mode : Mode} {top : Bool} {F : Flight}
     (hc : Closed T mode top F = true) (hr : RootsOk T mode top F = true)
